@@ -2253,10 +2253,15 @@ def run(ctx):
                 ctx.violation(f"correspondence model/implementation broken ({c.kind}; the oracle found no failing input for this case): {cerr}",
                               {"kind": c.kind, "spec": c.spec, "correspondence": cerr}, False)
     nknown = 0
+    listed = [k for k in common.load_findings().get("known", []) if "property=C19" in k and "write_for_run" in k]
     for c, _ in results:
         if getattr(c, "known", None) and not c.oracle:
             nknown += 1
-            ctx.known(c.known)
+            if listed:
+                ctx.known(c.known)
+            elif nknown <= 3:
+                # not (or no longer) a recorded finding: a violation like any other
+                ctx.violation(f"C19 statement fails on the implementation ({c.kind}): {c.known}", {"kind": c.kind, "spec": c.spec, "observed": c.known}, True)
     seen = set()
     for c, _ in results:
         if c.sample and c.kind not in seen:
